@@ -88,6 +88,19 @@ def run(ctx):
                 c3 = None
             if c3 is not None and c3.edition_guess == c1.edition_guess and not (c3 == c1 and hash(c3) == hash(c1)):
                 ctx.violation(None, "equality depends on context/metadata", dict(stream="sweep", a=t1, b=t3))
+            # a year must not matter when the string names a single candidate edition
+            cands = list(c1.exact_editions) or list(c1.variation_editions)
+            if len(cands) == 1:
+                e = cands[0]
+                yr = (e.end.year + 6) if e.end is not None else ((e.start.year - 6) if e.start is not None else 1950)
+                t4 = f"Foo v. Bar, 1 {s} 2 ({min(max(yr, 1601), 2026)})."
+                try:
+                    c4 = one(t4, s)
+                except Exception:  # noqa
+                    c4 = None
+                if c4 is not None and not (c4 == c1 and hash(c4) == hash(c1)):
+                    ctx.violation(None, "equality depends on the year although the reporter string names a single edition",
+                                  dict(stream="sweep", a=t1, b=t4))
     ctx.streams.append("sweep")
 
     # ---- pairs within pools
